@@ -1,6 +1,8 @@
 (* C05 -- Failures are contained and never recorded as success.
-   Statements only.  Proofs: Proofs/RunnerTr.v. *)
-From DoitV Require Import Base Dispatch Runner RunnerTr.
+   Statements only.  Proofs: Proofs/RunnerTr.v (trace shape), Proofs/RunnerP.v on top of
+   Proofs/DispatchInv.v (containment: the dispatcher records the outcome of every finished
+   dependency in the waiting node's bad_deps / ignored_deps before the node is handed over). *)
+From DoitV Require Import Base Dispatch Runner Parallel DispatchP DispatchInv RunnerTr RunnerP ParallelP.
 Open Scope N_scope.
 
 (* serial runner: every failure report (TaskFailed, TaskError, unmet dependency, dependency error
@@ -23,7 +25,69 @@ Proof.
 Qed.
 Print Assumptions C05_failure_removed_serial.
 
+(* containment: the actions of a task start only after EVERY task it declares as task_dep (explicit,
+   implicit through targets), calc_dep or setup-task got a final report, and that report is success
+   or up-to-date *)
+Theorem C05_contained_serial :
+  forall tasks wake_rank calc_rank continue_ always fuel selection pre t post x,
+    fst (run_serial tasks wake_rank calc_rank continue_ always fuel selection) = pre ++ EExecute t :: post ->
+    In x (static_deps tasks t) -> good_in pre x.
+Proof.
+  intros tasks wake_rank calc_rank continue_ always fuel selection pre t post x E Hx.
+  exact (cordered_split tasks _ (serial_contained tasks wake_rank calc_rank continue_ always fuel selection) pre t post E x Hx).
+Qed.
+Print Assumptions C05_contained_serial.
+
+(* ... hence a task with a dependency that failed (any kind), has an unmet dependency of its own, or
+   was ignored is never executed in that run, --continue or not *)
+Theorem C05_failed_dependency_never_runs_serial :
+  forall tasks wake_rank calc_rank continue_ always fuel selection t x e,
+    let tr := fst (run_serial tasks wake_rank calc_rank continue_ always fuel selection) in
+    In x (static_deps tasks t) -> In e tr -> is_final_ev x e = true -> is_good_ev e = false ->
+    ~ In (EExecute t) tr.
+Proof. exact serial_bad_dep_never_runs. Qed.
+Print Assumptions C05_failed_dependency_never_runs_serial.
+
+Definition ex05 (n : name) : option task :=
+  match n with
+  | 0 => Some (Build_task [1] [2] [] false false CkRun false OOk [] [] [])
+  | 1 => Some (Build_task [] [] [] false false CkRun false OFail [] [] [])
+  | 2 => Some (Build_task [] [] [] false false CkRun false OOk [] [] [])
+  | _ => None end.
+Example C05_contained_nonvacuous :
+  fst (run_serial ex05 (fun _ _ => 0) (fun _ => 0) true false 100 [0; 2]) =
+    [EGetStatus 1; EExecute 1; ERemove 1; EFailure 1 0; EGetStatus 0; ERemove 0; EFailure 0 2;
+     EGetStatus 2; EExecute 2; ESave 2; ESuccess 2; EClose].
+Proof. vm_compute. reflexivity. Qed.
+
 Example C05_nonvacuous : exists pre,
   fst (run_serial (fun n => match n with 0 => Some (Build_task [] [] [] false false CkRun false OError [] [] []) | _ => None end)
                   (fun _ _ => 0) (fun _ => 0) false false 50 [0]) = pre ++ EFailure 0 1 :: [EClose].
 Proof. exists [EGetStatus 0; EExecute 0; ERemove 0]. vm_compute. reflexivity. Qed.
+
+(* the same for the parallel runners (processes: proc = true, threads: proc = false), every number of
+   workers and EVERY schedule: the actions of a task are started by a worker only after each declared
+   dependency was reported successful or up-to-date by the main process *)
+Theorem C05_contained_parallel :
+  forall tasks wake_rank calc_rank continue_ always proc fuel nprocs sched selection pre t w post x,
+    fst (run_parallel tasks wake_rank calc_rank continue_ always proc fuel nprocs sched selection) = pre ++ PStart t w :: post ->
+    In x (static_deps tasks t) -> pgood pre x.
+Proof.
+  intros tasks wake_rank calc_rank continue_ always proc fuel nprocs sched selection pre t w post x E Hx.
+  exact (pcordered_split tasks _ (parallel_contained tasks wake_rank calc_rank continue_ always proc fuel nprocs sched selection) pre t w post E x Hx).
+Qed.
+Print Assumptions C05_contained_parallel.
+
+Theorem C05_failed_dependency_never_runs_parallel :
+  forall tasks wake_rank calc_rank continue_ always proc fuel nprocs sched selection t w x e,
+    let log := fst (run_parallel tasks wake_rank calc_rank continue_ always proc fuel nprocs sched selection) in
+    In x (static_deps tasks t) -> In (PE e) log -> is_final_ev x e = true -> is_good_ev e = false ->
+    ~ In (PStart t w) log.
+Proof. exact parallel_bad_dep_never_runs. Qed.
+Print Assumptions C05_failed_dependency_never_runs_parallel.
+
+(* NOT PROVED here: failure_removed for the parallel runners (correspondence + oracle); dependencies
+   that only exist through calc_dep results are covered at the state level (deps_recd in
+   Proofs/DispatchInv.v: every dependency of the node, dynamic ones included, is recorded before the
+   hand-over) but the trace-level statements above speak of the declared ones; that NOTHING reaches the
+   DB for a failed task is C07's refinement applied to the ERemove/ESave events above. *)
